@@ -27,6 +27,7 @@ import zlib
 from common import coqrun, enc
 
 ID = "C05"
+MODEL_TARGETS = ["theories/Tables_C05.vo"]   # constants of the hand model = constants regenerated from source
 PROP_FILE = "props/C05.v"
 THEOREMS = ["C05_consistent", "C05_out_ok_unfold", "C05_slice_sorted", "C05_slice_congruent", "C05_order",
             "C05_two_phase", "C05_pipeline_consistent"]
